@@ -110,13 +110,21 @@ SetupFields(s) ==
 (* ------------------------------ validity ------------------------------ *)
 IdOK(s) == s.rate >= 1 /\ s.ch >= 1 /\ s.ch <= 255 /\ s.e0 >= 6 /\ s.e0 <= s.e1 /\ s.e1 <= 13
 
-\* Huffman tree: the lengths must describe a complete tree, or exactly one used entry of length 1 (lengths here are <= 16)
+\* Huffman tree: the lengths (1..32) must describe a complete tree, or exactly one used entry of length 1.
+\* Completeness = the Kraft sum is exactly 1; evaluated from the longest length upwards as a carry chain (words of length l pair up into
+\* words of length l - 1), which needs no number wider than the entry count
+\* (the plain sum, for lengths <= 16: used by Codebook_MC to cross-check the carry chain)
 Kraft(lens) == SumSeq([i \in 1..Len(lens) |-> IF lens[i] > 0 THEN Pow2(16 - lens[i]) ELSE 0])
+KraftOne(lens) == LET odd == Cardinality({ i \in 1..Len(lens) : lens[i] = 1 }) IN
+                  \* at length 1 the chain must end with exactly two halves: carry from below + words of length 1 = 2
+                  LET RECURSIVE Up(_, _) Up(l, carry) == IF l = 1 THEN carry + odd = 2
+                                                        ELSE LET t == Cardinality({ i \in 1..Len(lens) : lens[i] = l }) + carry IN t % 2 = 0 /\ Up(l - 1, t \div 2)
+                  IN Up(32, 0)
 UsedCount(lens) == Cardinality({ i \in 1..Len(lens) : lens[i] > 0 })
-TreeOK(lens) == Kraft(lens) = 65536 \/ (UsedCount(lens) = 1 /\ \E i \in 1..Len(lens) : lens[i] = 1)
+TreeOK(lens) == KraftOne(lens) \/ (UsedCount(lens) = 1 /\ \E i \in 1..Len(lens) : lens[i] = 1)
 BookOK(b) ==
   /\ b.entries = Len(b.lens) /\ b.entries >= 1 /\ b.dim >= 1 /\ ILog(b.dim) + ILog(b.entries) <= 24
-  /\ \A i \in 1..Len(b.lens) : b.lens[i] \in 0..16
+  /\ \A i \in 1..Len(b.lens) : b.lens[i] \in 0..32
   /\ (b.ordered = 1 => (\A i \in 1..Len(b.lens) : b.lens[i] >= 1) /\ \A i \in 1..(Len(b.lens) - 1) : b.lens[i] <= b.lens[i + 1])
   /\ (b.ordered = 0 /\ b.sparse = 0 => \A i \in 1..Len(b.lens) : b.lens[i] >= 1)
   /\ TreeOK(b.lens)
@@ -145,7 +153,7 @@ ResidueOK(r, s) ==
   /\ r.gbook \in 0..(Len(s.books) - 1)
   /\ Len(r.rbooks) = SumSeq([j \in 1..Len(r.cascade) |-> BitCount(r.cascade[j])])
   /\ \A j \in 1..Len(r.rbooks) : r.rbooks[j] \in 0..(Len(s.books) - 1) /\ s.books[r.rbooks[j] + 1].maptype # 0
-  /\ LET g == s.books[r.gbook + 1] IN g.dim >= 1 /\ g.dim <= 12 /\ IPow(r.nclass, g.dim) <= g.entries
+  /\ LET g == s.books[r.gbook + 1] IN g.dim >= 1 /\ g.dim <= 12 /\ ~PowGt(r.nclass, g.dim, g.entries)
 
 MapOK(m, s) ==
   /\ m.submaps \in 1..16
